@@ -15,6 +15,7 @@ RULE = (
     "Hypothesis draws parameters, F = R U (batch fixed for jax), pre-histories and engineering constants (orthotropic "
     "sets from an SPD compliance by construction). Oracle: differential (both implementations on identical inputs) "
     "and the closed-form isotropic tangent lambda 1x1 + mu (1 ik 1 + 1 il 1) at F = I. Non-trivial: |F - I| >= 0.05."
+    ' Added later: incremental histories for the small-strain law, hand-coded laws through re-used out= buffers, rotated / permuted orthotropic material axes with and without an explicit third axis, coaxial histories of the MORPH pair.'
 )
 ASSUMPTIONS = [
     "backend eigenvalue regularisation (jax: diag(0, +-1e-4); van der Waals: +1e-4 on the invariant) bounds the admissible disagreement: |dP| <= 20 delta |A|, |dA| <= 5e-2 |A| for those models, 1e-8 otherwise",
